@@ -167,9 +167,11 @@ func (n *LNNode) CreateInvoice(msat uint64, preimageHex, label string, expirySec
 	}
 	n.w.mu.Lock()
 	defer n.w.mu.Unlock()
-	for _, li := range n.Invoices {
-		if li.Label == label {
-			return "", fmt.Errorf("Duplicate label '%s'", label)
+	if !n.LND { // CLN refuses a second invoice with the same label; lnd has no labels
+		for _, li := range n.Invoices {
+			if li.Label == label {
+				return "", fmt.Errorf("Duplicate label '%s'", label)
+			}
 		}
 	}
 	h := pre.Hash().String()
